@@ -1,5 +1,6 @@
 import Driver.GeoWire
 import Midgard.Model.Kepler
+import Midgard.Generated.PositionSystems
 
 /-! Driver for C07: `trs2kepler`, `kepler2trs`, mean and true anomaly at `Float`;
 the algebraic core `kepler2trsCore` also at `Rat`. -/
@@ -42,6 +43,7 @@ def handleF : List String → Option String
   | _ => none
 
 def handle : List String → Option String
+  | ["c07", "gm"] => some (showRat Midgard.Generated.PositionSystems.GM)
   | "c07" :: "q" :: rest => handleAlg (α := Rat) rest
   | "c07" :: "f" :: rest => (handleAlg (α := Float) rest).orElse (fun _ => handleF rest)
   | _ => none
